@@ -2,7 +2,13 @@ import Amshan.Lemmas.GenCodeBase
 import Amshan.GeneratedCodeHdlc
 import Amshan.Model.Hdlc
 /- Per-property part of the GeneratedCode equivalence lemmas (split so that a change to one translated
-   function only breaks the proofs of the property that function belongs to). -/
+   function only breaks the proofs of the property that function belongs to).
+
+   The proofs are semantic: the generated definition and the model are unfolded, the options / lists involved are
+   split into their cases, and the remaining statement about `if`s, Booleans, list lookups and linear arithmetic is
+   decided (`simp` + `gen_decide`, i.e. `grind`); they do not depend on how the source spells the computation (early return or nested
+   `if`, `is None` or `is not None`, temporaries, operand order, `>= 2` or `> 1`, ...). -/
+set_option linter.unusedSimpArgs false   -- simp sets are deliberately wider than one spelling of the source needs
 namespace Amshan.GenLemmas
 open Amshan.GenCode Amshan.Gen Amshan.Hdlc
 
@@ -10,52 +16,38 @@ open Amshan.GenCode Amshan.Gen Amshan.Hdlc
 
 theorem hdlcFrameFormat_eq (f : Hdlc.Frame) : hdlcFrameFormat f.data = f.frameFormat := by
   unfold hdlcFrameFormat Hdlc.Frame.frameFormat
-  rcases f.data with _ | ⟨a, _ | ⟨b, t⟩⟩ <;> simp [Id.run] <;> rfl
-
-theorem hdlcOptMap_eq {β : Type} (o : Option Nat) (g : Nat → β) :
-    (if o.isSome then some (g (o.getD 0)) else none) = o.map g := by
-  cases o <;> rfl
+  rcases f.data with _ | ⟨a, _ | ⟨b, t⟩⟩ <;> simp <;> gen_decide
 
 theorem hdlcFrameFormatType_eq (f : Hdlc.Frame) : hdlcFrameFormatType f.data = f.formatType := by
   unfold hdlcFrameFormatType Hdlc.Frame.formatType
-  rw [hdlcFrameFormat_eq]
-  cases f.frameFormat <;> rfl
+  try simp only [hdlcFrameFormat_eq]
+  cases f.frameFormat <;> simp <;> gen_decide
 
 theorem hdlcSegmentation_eq (f : Hdlc.Frame) : hdlcSegmentation f.data = f.segmentation := by
   unfold hdlcSegmentation Hdlc.Frame.segmentation
-  rw [hdlcFrameFormat_eq]
-  cases f.frameFormat <;> rfl
+  try simp only [hdlcFrameFormat_eq]
+  cases f.frameFormat <;> simp <;> gen_decide
 
 theorem hdlcFrameLength_eq (f : Hdlc.Frame) : hdlcFrameLength f.data = f.frameLength := by
   unfold hdlcFrameLength Hdlc.Frame.frameLength
-  rw [hdlcFrameFormat_eq]
-  cases f.frameFormat <;> rfl
+  try simp only [hdlcFrameFormat_eq]
+  cases f.frameFormat <;> simp <;> gen_decide
 
 theorem hdlcInformationPosition_eq (f : Hdlc.Frame) : hdlcInformationPosition f.ctlPos = f.infoPos := by
   unfold hdlcInformationPosition Hdlc.Frame.infoPos
-  cases f.ctlPos <;> rfl
+  cases f.ctlPos <;> simp <;> gen_decide
 
 /-! ### HDLC header: fields at the cached control position (explicit `data`, `ctlPos`; no frame invariant needed) -/
 
 theorem hdlcControl_eq (f : Hdlc.Frame) : hdlcControl f.data f.ctlPos = f.control := by
   rcases f with ⟨data, crc, cp⟩
   unfold hdlcControl Hdlc.Frame.control Hdlc.Frame.len
-  cases cp with
-  | none => simp
-  | some p => simp; split <;> simp_all
+  cases cp <;> simp <;> gen_decide
 
 theorem hdlcHeaderCheckSequence_eq (f : Hdlc.Frame) : hdlcHeaderCheckSequence f.data f.ctlPos = f.hcs := by
   rcases f with ⟨data, crc, cp⟩
   unfold hdlcHeaderCheckSequence Hdlc.Frame.hcs Hdlc.Frame.len
-  cases cp with
-  | none => simp
-  | some p =>
-    simp
-    split
-    · rename_i h
-      have h1 : p + 1 < data.length := by omega
-      simp [List.getElem?_eq_getElem h, List.getElem?_eq_getElem h1]
-    · simp
+  cases cp <;> simp <;> gen_decide
 
 /-! ### HDLC header: addresses.  `_get_address` is a `while True:` loop; the translator emits it as
     `hdlcGetAddress.loop1` (recursion on fuel, answering `oof` when the fuel is used up). -/
@@ -73,42 +65,40 @@ theorem hdlcGetAddress_loop_eq (data : List Nat) (position : Nat) (oof : Option 
   | succ n ih =>
     intro adr i cur h1 h2
     unfold hdlcGetAddress.loop1
-    by_cases hi : i ≥ data.length
-    · have : data.drop i = [] := List.drop_eq_nil_of_le hi
-      simp [hi, this, Hdlc.getAddressFrom]
-    · have hlt : i < data.length := by omega
-      rw [List.drop_eq_getElem_cons hlt]
-      simp only [Hdlc.getAddressFrom]
-      by_cases hodd : data[i] % 2 = 1
-      · simp [hi, hlt, hodd, Nat.and_one_is_mod]
-      · simp [hi, hlt, hodd, Nat.and_one_is_mod]
-        rw [ih _ _ _ (by omega) (by omega)]
-        simp [Function.comp_def]
+    by_cases hi : i < data.length
+    · have hodd : data[i] % 2 = 1 ∨ data[i] % 2 = 0 := by omega
+      rw [List.drop_eq_getElem_cons hi]
+      rcases hodd with hodd | hodd <;>
+        simp [Hdlc.getAddressFrom, hi, hodd, Nat.and_one_is_mod, ih, Function.comp_def] <;> gen_decide
+    · have : data.drop i = [] := List.drop_eq_nil_of_le (by omega)
+      simp [hi, this, Hdlc.getAddressFrom] <;> gen_decide
 
 theorem hdlcGetAddress_eq (data : List Nat) (position : Nat) :
     hdlcGetAddress data position = Hdlc.getAddress data position := by
   unfold hdlcGetAddress Hdlc.getAddress
-  by_cases h : data.length > position
+  by_cases h : position < data.length
   · simp [h]
     rw [hdlcGetAddress_loop_eq _ _ _ _ _ _ _ (by omega) (by omega)]
-    simp
-  · simp [h]
+    all_goals simp
+  · simp [h] <;> gen_decide
 
 theorem hdlcDestinationAddress_eq (data : List Nat) : hdlcDestinationAddress data = Hdlc.destAddr data := by
   unfold hdlcDestinationAddress Hdlc.destAddr
   simp only [hdlcGetAddress_eq]
-  by_cases h : data.length ≥ 2 <;> simp [h]
+  gen_decide
 
 theorem hdlcSourceAddress_eq (data : List Nat) : hdlcSourceAddress data = Hdlc.srcAddr data := by
   unfold hdlcSourceAddress Hdlc.srcAddr
   simp only [hdlcGetAddress_eq, hdlcDestinationAddress_eq]
-  cases Hdlc.destAddr data <;> simp
+  cases Hdlc.destAddr data <;> simp <;> gen_decide
 
 theorem hdlcGetControlFieldPosition_eq (data : List Nat) :
     hdlcGetControlFieldPosition data = Hdlc.controlPos data := by
   unfold hdlcGetControlFieldPosition Hdlc.controlPos
   simp only [hdlcSourceAddress_eq, hdlcDestinationAddress_eq]
-  cases Hdlc.destAddr data <;> cases Hdlc.srcAddr data <;> simp
+  -- without a destination address there is no source address (for sources that test only the latter)
+  have hsrc : Hdlc.destAddr data = none → Hdlc.srcAddr data = none := by intro h; simp [Hdlc.srcAddr, h]
+  cases hd : Hdlc.destAddr data <;> cases hs : Hdlc.srcAddr data <;> simp_all <;> gen_decide
 
 /-! ### `HdlcFrameHeader.update()` (the cached `_is_header_good` is not modelled: second component) -/
 
@@ -120,12 +110,7 @@ theorem hdlcHeaderUpdate_fst (data : List Nat) (g : Bool) (cp : Option Nat) (hg 
        | none => if data.length > 3 then Hdlc.controlPos data else none) := by
   unfold hdlcHeaderUpdate
   simp only [hdlcGetControlFieldPosition_eq]
-  cases cp with
-  | some p => cases hg <;> simp <;> split <;> simp
-  | none =>
-    by_cases h : data.length > 3
-    · cases hc : Hdlc.controlPos data <;> cases hg <;> simp [h] <;> split <;> simp
-    · simp [h]
+  cases cp <;> cases hg <;> cases hc : Hdlc.controlPos data <;> simp <;> gen_decide
 
 theorem hdlcHeaderUpdate_append (f : Hdlc.Frame) (b : Nat) (g : Bool) (hg : Option Bool) :
     (hdlcHeaderUpdate (f.data ++ [b]) g f.ctlPos hg).1 = (f.append b).ctlPos := by
@@ -133,29 +118,18 @@ theorem hdlcHeaderUpdate_append (f : Hdlc.Frame) (b : Nat) (g : Bool) (hg : Opti
 
 /-! ### HdlcFrame accessors -/
 
-theorem hdlcIsGoodFfc_eq (f : Hdlc.Frame) : hdlcIsGoodFfc (Fcs.isGood f.crc) = f.isGoodFfc := rfl
+theorem hdlcIsGoodFfc_eq (f : Hdlc.Frame) : hdlcIsGoodFfc (Fcs.isGood f.crc) = f.isGoodFfc := by
+  unfold hdlcIsGoodFfc Hdlc.Frame.isGoodFfc; gen_decide
 
 theorem hdlcIsExpectedLength_eq (f : Hdlc.Frame) : hdlcIsExpectedLength f.data = f.isExpectedLength := by
   unfold hdlcIsExpectedLength Hdlc.Frame.isExpectedLength Hdlc.Frame.len
-  rw [hdlcFrameLength_eq]; rfl
+  try simp only [hdlcFrameLength_eq]
+  all_goals (cases f.frameLength <;> simp <;> gen_decide)
 
 theorem hdlcFrameCheckSequence_eq (f : Hdlc.Frame) : hdlcFrameCheckSequence f.data f.ctlPos = f.fcsField := by
-  unfold hdlcFrameCheckSequence Hdlc.Frame.fcsField Hdlc.Frame.len
-  rw [hdlcInformationPosition_eq]
-  cases h : f.infoPos with
-  | none => simp
-  | some ip =>
-    have : 3 ≤ ip := by
-      unfold Hdlc.Frame.infoPos at h
-      cases hc : f.ctlPos <;> simp_all
-      omega
-    simp
-    split
-    · rename_i hl
-      have h1 : f.data.length - 1 < f.data.length := by omega
-      have h2 : f.data.length - 2 < f.data.length := by omega
-      simp [List.getElem?_eq_getElem h1, List.getElem?_eq_getElem h2]
-    · simp
+  rcases f with ⟨data, crc, cp⟩
+  unfold hdlcFrameCheckSequence hdlcInformationPosition Hdlc.Frame.fcsField Hdlc.Frame.infoPos Hdlc.Frame.len
+  cases cp <;> simp <;> gen_decide
 
 /-- The translation computes `len(data) - 2` in `Nat` (truncated); Python would index from the end for a negative
     value.  Whenever `frame_check_sequence` answers a number the frame has at least 3 octets (the information
@@ -163,24 +137,16 @@ theorem hdlcFrameCheckSequence_eq (f : Hdlc.Frame) : hdlcFrameCheckSequence f.da
 theorem hdlcFrameCheckSequence_guard (data : List Nat) (cp : Option Nat)
     (h : (hdlcFrameCheckSequence data cp).isSome) : 3 ≤ data.length := by
   unfold hdlcFrameCheckSequence hdlcInformationPosition at h
-  cases cp with
-  | none => simp at h
-  | some p =>
-    simp at h
-    split at h
-    · omega
-    · simp at h
+  cases cp <;> simp at h <;> gen_decide
 
 theorem hdlcPayload_eq (f : Hdlc.Frame) : hdlcPayload f.data f.ctlPos = f.payload := by
   unfold hdlcPayload Hdlc.Frame.payload Hdlc.Frame.len sliceNegEnd
-  rw [hdlcInformationPosition_eq]
-  cases f.infoPos with
-  | none => simp
-  | some ip => simp; split <;> simp_all
+  try simp only [hdlcInformationPosition_eq]
+  cases f.infoPos <;> simp <;> gen_decide
 
 theorem hdlcIsValid_eq (f : Hdlc.Frame) : hdlcIsValid f.isGoodFfc f.data = f.isValid := by
   unfold hdlcIsValid Hdlc.Frame.isValid
-  rw [hdlcIsExpectedLength_eq]
-  cases f.isGoodFfc <;> cases f.isExpectedLength <;> rfl
+  try simp only [hdlcIsExpectedLength_eq]
+  all_goals (cases f.isGoodFfc <;> cases f.isExpectedLength <;> simp <;> gen_decide)
 
 end Amshan.GenLemmas
